@@ -41,6 +41,11 @@ with cf.ThreadPoolExecutor(jobs) as ex:
         for l in lines:
             print(sid, l[:150], flush=True)
         own = lines[0]
+        try:
+            if json.load(open(os.path.join(V, "seeded", sid, "meta.json"))).get("superseded"):
+                continue      # no observable effect at HEAD: a static report without a failing input is the right verdict
+        except Exception:
+            pass
         if "rc=0" in own:
             bad.append((sid, "MISSED"))
         elif "no-failing-input-found" in own:
